@@ -130,6 +130,26 @@ for k, v in EXTRA12.items():
     if k in P:
         P[k]["text"] += v
 
+# round 13 (DESIGN.md 8.6)
+EXTRA13 = {
+ "C01": " The debug switch is read from states.Env() at decision time (R01.7); R10.3 is an obligation here.",
+ "C02": " Scratch arrays re-sliced at a computed position stay within their length (R02.8); a lookup hit in newChildLogger makes no call (R10.4).",
+ "C03": " R17.5 and the single-writer rule for the record's severity (R03.2) are obligations here.",
+ "C04": " R16.2 and the callers of the buffer's growth primitives (R19.1) are obligations here.",
+ "C05": " R16.2 is an obligation here.",
+ "C06": " The padder's guards do not depend on the whole message; the record's severity is stored once (R06.3).",
+ "C08": " Deriving a log/slog handler edits no attribute object (R15.4); a lookup hit makes no call (R10.4).",
+ "C12": " R13.1, R01.3 and R10.3 are obligations here.",
+ "C14": " The caller printer proper tests no flag (R14.5); R09.1 is an obligation here.",
+ "C15": " NewSlogHandler ends in the format its options name for all four JSON x NoColor combinations (R15.2); deriving a handler edits no attribute object (R15.4).",
+ "C16": " The layout stored is the argument itself (R16.4); R15.3 is an obligation here.",
+ "C17": " The record's severity is stored by the session start only (R17.4).",
+ "C18": " Inside the regexp loop only the entry's own Match decides (R18.2).",
+}
+for k, v in EXTRA13.items():
+    if k in P:
+        P[k]["text"] += v
+
 checks, na = [], []
 ids = [json.loads(l)["id"] for l in open(os.path.join(V, "properties.jsonl"))]
 for pid in ids:
